@@ -210,6 +210,11 @@ func (c *LocalReusableWorkflowCache) debug(format string, args ...interface{}) {
 // cleanWorkflowSpec returns the key of the cache for the workflow spec. "./a.yml", "././a.yml" and
 // "./b/../a.yml" are the same file, so one key is used for them.
 func cleanWorkflowSpec(spec string) string {
+	if !isWorkflowCallUsesLocalFormat(spec) {
+		// An invalid spec (e.g. "./a@v1/../b.yml") is remembered as it is. Cleaning it could make it
+		// equal to the spec of another workflow
+		return spec
+	}
 	return "./" + path.Clean(spec)
 }
 
